@@ -1409,10 +1409,13 @@ class FlipEnumParallel(ADEVPrimitive):
         (p_primal,) = Dual.tree_primal(dual_tree)
         (p_tangent,) = Dual.tree_tangent(dual_tree)
         support = jnp.array([True, False])
-        ret_primals, ret_tangents = modular_vmap(kdual)(
-            (support,),
-            (_discrete_zero_tangent(support)),
-        )
+
+        def _branch(value):
+            out_dual = kdual(Dual(value, _discrete_zero_tangent(value)))
+            (out_primal,), (out_tangent,) = Dual.tree_unzip(out_dual)
+            return out_primal, out_tangent
+
+        ret_primals, ret_tangents = modular_vmap(_branch)(support)
 
         def _inner(p, ret):
             return jnp.sum(jnp.array([p, 1 - p]) * ret)
@@ -1451,9 +1454,13 @@ class CategoricalEnumParallel(ADEVPrimitive):
         (probs_primal,) = Dual.tree_primal(dual_tree)
         (probs_tangent,) = Dual.tree_tangent(dual_tree)
         idxs = jnp.arange(len(probs_primal))
-        ret_primals, ret_tangents = modular_vmap(kdual)(
-            (idxs,), (_discrete_zero_tangent(idxs),)
-        )
+
+        def _branch(value):
+            out_dual = kdual(Dual(value, _discrete_zero_tangent(value)))
+            (out_primal,), (out_tangent,) = Dual.tree_unzip(out_dual)
+            return out_primal, out_tangent
+
+        ret_primals, ret_tangents = modular_vmap(_branch)(idxs)
 
         def _inner(probs, primals):
             return jnp.sum(jax.nn.softmax(probs) * primals)
